@@ -487,18 +487,24 @@ def api_discipline(repo: Repo, chk: Check) -> None:
 def atomic(repo: Repo, chk: Check) -> None:
     cls = repo.cls("_client.KeyCache")
     # the API functions write `cache = cache or KeyCache()`: a caller's cache must never be falsy
-    uses_or = []
+    # (normal form: `if not cache: cache = KeyCache()`); decided on the guards of the rebinding
+    from sa.flow import build as _build
+
+    by_or = False
     for q in API:
         f = repo.func(q)
+        g = _build(f.node)
         for n in body_nodes(f.node):
             if isinstance(n, ast.Assign) and unparse(n.targets[0]) == "cache":
-                uses_or.append((f, n))
                 v = n.value
-                ok = isinstance(v, ast.BoolOp) and isinstance(v.op, ast.Or) and unparse(v.values[0]) == "cache" and unparse(v.values[1]) == "KeyCache()"
-                ok = ok or (isinstance(v, ast.IfExp) and "cache is None" in unparse(v.test) or "cache is not None" in unparse(v))
-                chk.ob("O4", Site.of(f, n), ok, "a caller supplied cache is kept, a fresh one is made only when none is given" if ok else f"cache is rebound as '{unparse(v)}'")
+                nid = g.first_of_stmt.get(n)
+                guards = [(unparse(c), pol) for c, pol in (g.guards_of(nid) if nid is not None else [])]
+                truthy = ("cache", False) in guards or ("not cache", True) in guards
+                isnone = ("cache is None", True) in guards or ("cache is not None", False) in guards
+                ok = unparse(v) == "KeyCache()" and (truthy or isnone)
+                by_or = by_or or truthy
+                chk.ob("O4", Site.of(f, n), ok, "a caller supplied cache is kept, a fresh one is made only when none is given" if ok else f"cache is rebound as '{unparse(v)}' under {guards or 'no guard'}")
     falsy = [m for m in ("__len__", "__bool__") if any(m in c.methods for c in cls.mro())]
-    by_or = any(isinstance(n.value, ast.BoolOp) for _, n in uses_or)
     chk.ob("O4", Site(cls.mod.rel, cls.qual, cls.node.lineno, "KeyCache truthiness"), not (falsy and by_or), "KeyCache objects are always truthy, so 'cache or KeyCache()' keeps the caller's cache" if not (falsy and by_or) else f"KeyCache defines {falsy}: an empty but shared cache is falsy, 'cache or KeyCache()' replaces it by a throw-away cache and nothing is ever retained (repeat RPCs)")
     for m in cls.methods.values():
         chk.analysed(m)
